@@ -670,4 +670,374 @@ theorem judge_run {s : State} {a : Abs} (h : Sim s a) (ops : List Op) :
     simp only [modelTrace, run, List.zip_cons_cons, judgeTrace, h1, Bool.true_and]
     exact ih h2
 
+
+/-! ## C14: round-robin counting -/
+
+/-- steps since the cursor last had residue `p` modulo `k` -/
+def dist (k p c : Nat) : Nat := (c + k - p) % k
+
+theorem dist_eq {k p : Nat} (hp : p < k) (c : Nat) :
+    dist k p c = if p ≤ c % k then c % k - p else c % k + k - p := by
+  unfold dist
+  have hc := Nat.div_add_mod c k
+  have hr : c % k < k := Nat.mod_lt _ (by omega)
+  have h1 : c + k - p = k * (c / k) + (c % k + k - p) := by omega
+  rw [h1, Nat.mul_add_mod]
+  by_cases h : p ≤ c % k
+  · simp only [h, if_true]
+    have : c % k + k - p = k + (c % k - p) := by omega
+    rw [this, Nat.add_mod_left, Nat.mod_eq_of_lt (by omega)]
+  · simp only [h, if_false]
+    exact Nat.mod_eq_of_lt (by omega)
+
+theorem succ_mod {k : Nat} (hk : 2 ≤ k) (c : Nat) :
+    (c + 1) % k = if c % k + 1 = k then 0 else c % k + 1 := by
+  have hr : c % k < k := Nat.mod_lt _ (by omega)
+  rw [Nat.add_mod, Nat.mod_eq_of_lt (show 1 < k by omega)]
+  by_cases h : c % k + 1 = k
+  · simp [h]
+  · simp only [h, if_false]; exact Nat.mod_eq_of_lt (by omega)
+
+theorem dist_lt {k p : Nat} (hp : p < k) (c : Nat) : dist k p c < k := Nat.mod_lt _ (by omega)
+
+/-- one increment of the cursor: the pick hits residue `p` exactly when the distance wraps from `k-1` to `0` -/
+theorem dist_step {k p : Nat} (hk : 2 ≤ k) (hp : p < k) (c : Nat) :
+    k * (if (c + 1) % k = p then 1 else 0) + dist k p (c + 1) = 1 + dist k p c := by
+  rw [dist_eq hp, dist_eq hp, succ_mod hk]
+  have hr : c % k < k := Nat.mod_lt _ (by omega)
+  by_cases h : c % k + 1 = k
+  · simp only [h, if_true]
+    by_cases h0 : 0 = p
+    · subst h0; simp; omega
+    · have : ¬ p ≤ 0 := by omega
+      simp only [h0, this, if_false]
+      split <;> omega
+  · simp only [h, if_false]
+    by_cases h1 : c % k + 1 = p
+    · simp only [h1, if_true]
+      have : ¬ p ≤ c % k := by omega
+      simp [this]; omega
+    · simp only [h1, if_false]
+      split <;> split <;> omega
+
+theorem lbGet_lbSet (lb : List (Key × Nat)) (k k' : Key) (v : Nat) :
+    lbGet (lbSet lb k v) k' = if k' = k then v else lbGet lb k' := by
+  induction lb with
+  | nil =>
+    by_cases h : k' = k
+    · subst h; simp [lbSet, lbGet, List.lookup_cons]
+    · have : (k' == k) = false := by simpa using h
+      simp [lbSet, lbGet, List.lookup_cons, this, h]
+  | cons p rest ih =>
+    obtain ⟨k0, v0⟩ := p
+    unfold lbSet
+    by_cases h0 : (k0 == k) = true
+    · have h0' : k0 = k := by simpa using h0
+      subst h0'
+      simp only [h0, if_true]
+      by_cases h : k' = k0
+      · subst h; simp [lbGet, List.lookup_cons]
+      · have : (k' == k0) = false := by simpa using h
+        simp [lbGet, List.lookup_cons, this, h]
+    · have h0f : (k0 == k) = false := by simpa using h0
+      simp only [h0f, Bool.false_eq_true, if_false]
+      have h0' : ¬ k0 = k := by simpa using h0
+      unfold lbGet at ih ⊢
+      simp only [List.lookup_cons]
+      by_cases h : k' = k0
+      · subst h
+        have : ¬ k' = k := h0'
+        simp [this]
+      · have hb : (k' == k0) = false := by simpa using h
+        simp only [hb]
+        exact ih
+
+/-- the potential: over the orders in `K`, the steps since each order's cursor last selected `e` -/
+def potential (K : List Key) (k : Nat) (e : Name × Nat) (lb : List (Key × Nat)) : Nat :=
+  (K.map fun κ => dist k (κ.idxOf e) (lbGet lb κ)).sum
+
+theorem potential_le (K : List Key) (k : Nat) (e : Name × Nat) (lb : List (Key × Nat))
+    (hK : ∀ κ, κ ∈ K → κ.length = k ∧ e ∈ κ) : potential K k e lb ≤ K.length * (k - 1) := by
+  unfold potential
+  induction K with
+  | nil => simp
+  | cons κ rest ih =>
+    have h1 := hK κ (by simp)
+    have hp : κ.idxOf e < k := by rw [← h1.1]; exact List.idxOf_lt_length_iff.2 h1.2
+    have := dist_lt hp (lbGet lb κ)
+    have ih' := ih (fun κ' h' => hK κ' (by simp [h']))
+    simp only [List.map_cons, List.sum_cons, List.length_cons]
+    rw [Nat.add_mul]
+    omega
+
+/-- moving the cursor of one order of a duplicate-free `K` changes one term of the potential -/
+theorem potential_set (K : List Key) (hK : K.Nodup) (k : Nat) (e : Name × Nat) (lb : List (Key × Nat)) (κ : Key) (v : Nat)
+    (hκ : κ ∈ K) :
+    potential K k e (lbSet lb κ v) + dist k (κ.idxOf e) (lbGet lb κ)
+      = potential K k e lb + dist k (κ.idxOf e) v := by
+  unfold potential
+  induction K with
+  | nil => cases hκ
+  | cons κ0 rest ih =>
+    simp only [List.map_cons, List.sum_cons]
+    have hnd := List.nodup_cons.1 hK
+    by_cases h : κ = κ0
+    · subst h
+      -- the rest does not contain κ: its terms are unchanged
+      have hrest : (rest.map fun κ' => dist k (κ'.idxOf e) (lbGet (lbSet lb κ v) κ'))
+          = rest.map fun κ' => dist k (κ'.idxOf e) (lbGet lb κ') := by
+        apply List.map_congr_left
+        intro κ' h'
+        have : κ' ≠ κ := fun x => hnd.1 (x ▸ h')
+        rw [lbGet_lbSet]; simp [this]
+      rw [hrest, lbGet_lbSet]; simp; omega
+    · have hmem : κ ∈ rest := by
+        rcases List.mem_cons.1 hκ with h' | h'
+        · exact absurd h' h
+        · exact h'
+      have := ih hnd.2 hmem
+      have h0 : ¬ κ0 = κ := fun x => h x.symm
+      rw [lbGet_lbSet]; simp only [h0, if_false]
+      omega
+
+/-- `Pop` with at least two ready endpoints: advance the cursor of the ordered ready list, index with it -/
+theorem pop_multi (eps : List EP) (lb : List (Key × Nat)) (us : List Name) (h : 2 ≤ (readyList eps us).length) :
+    pop eps lb us = (indexResult (readyList eps us) (toU64 (lbGet lb ((readyList eps us).map EP.id) + 1)),
+                     lbSet lb ((readyList eps us).map EP.id) (toU64 (lbGet lb ((readyList eps us).map EP.id) + 1))) := by
+  unfold pop
+  have hu : us.isEmpty = false := by
+    cases us with
+    | nil => simp [readyList] at h
+    | cons _ _ => rfl
+  simp only [hu, Bool.false_eq_true, if_false]
+  generalize readyList eps us = ready at h
+  match ready, h with
+  | e1 :: e2 :: t, _ => rfl
+
+theorem pop_single (eps : List EP) (lb : List (Key × Nat)) (us : List Name) (e : EP) (h : readyList eps us = [e]) :
+    pop eps lb us = (.picked e.name e.gen, lb) := by
+  unfold pop
+  have hu : us.isEmpty = false := by
+    cases us with
+    | nil => simp [readyList] at h
+    | cons _ _ => rfl
+  simp only [hu, Bool.false_eq_true, if_false, h]
+
+theorem pop_none (eps : List EP) (lb : List (Key × Nat)) (us : List Name) (h : readyList eps us = []) :
+    pop eps lb us = (.noReady, lb) := by
+  unfold pop
+  by_cases hu : us.isEmpty = true
+  · simp [hu]
+  · simp [hu, h]
+
+/-- with a duplicate-free ordered ready list, the cursor value `c` selects object `e` iff `c mod k` is `e`'s position -/
+theorem indexResult_hit (ready : List EP) (e : Name × Nat) (c : Nat)
+    (hnd : (ready.map EP.id).Nodup) (he : e ∈ ready.map EP.id) (hk : 0 < ready.length) :
+    (indexResult ready c == .picked e.1 e.2) = decide (c % ready.length = (ready.map EP.id).idxOf e) := by
+  have hlt : c % ready.length < ready.length := Nat.mod_lt _ hk
+  have hidx : (ready.map EP.id).idxOf e < (ready.map EP.id).length := List.idxOf_lt_length_iff.2 he
+  unfold indexResult
+  rw [List.getElem?_eq_getElem hlt]
+  simp only
+  rw [Bool.eq_iff_iff]
+  simp only [beq_iff_eq, PopOut.picked.injEq, decide_eq_true_eq]
+  have hlt' : c % ready.length < (ready.map EP.id).length := by simpa using hlt
+  have hget : (ready.map EP.id)[c % ready.length]'hlt' = (ready[c % ready.length].name, ready[c % ready.length].gen) := by
+    simp [EP.id]
+  constructor
+  · rintro ⟨h1, h2⟩
+    have : (ready.map EP.id)[c % ready.length]'hlt' = (ready.map EP.id)[(ready.map EP.id).idxOf e]'hidx := by
+      rw [hget, List.getElem_idxOf hidx, h1, h2]
+    exact (List.getElem_inj hnd).1 this
+  · intro h
+    have : (ready.map EP.id)[c % ready.length]'hlt' = e := by
+      rw [← List.getElem_idxOf hidx]; congr 1
+    rw [hget] at this
+    rw [← this]; exact ⟨rfl, rfl⟩
+
+theorem countPicked_cons (n : Name) (g : Nat) (r : PopOut) (rs : List PopOut) :
+    countPicked n g (r :: rs) = countPicked n g rs + (if (r == .picked n g) = true then 1 else 0) := by
+  unfold countPicked; rw [List.countP_cons]
+
+/-- **the round-robin invariant**: over any sequence of picks whose ordered ready lists all belong to `K` (duplicate-free
+    orders of the same `k ≥ 2` ready objects, among them `e`), `k · (#picks of e) + potential` grows by exactly one per pick. -/
+theorem popMany_potential (eps : List EP) (e : Name × Nat) (k : Nat) (hk : 2 ≤ k) (K : List Key) (hK : K.Nodup)
+    (hKe : ∀ κ, κ ∈ K → κ.Nodup ∧ κ.length = k ∧ e ∈ κ)
+    (uss : List (List Name)) (lb : List (Key × Nat))
+    (hkeys : ∀ us, us ∈ uss → (readyList eps us).map EP.id ∈ K)
+    (hwrap : ∀ κ, κ ∈ K → lbGet lb κ + uss.length < 2 ^ 64) :
+    k * countPicked e.1 e.2 (popMany eps lb uss).1 + potential K k e (popMany eps lb uss).2
+      = uss.length + potential K k e lb := by
+  induction uss generalizing lb with
+  | nil => simp [popMany, countPicked]
+  | cons us rest ih =>
+    have hκ := hkeys us (by simp)
+    obtain ⟨hnd, hlen, hmem⟩ := hKe _ hκ
+    have hlen' : (readyList eps us).length = k := by simpa using hlen
+    have hw := hwrap _ hκ
+    simp only [List.length_cons] at hw
+    have hc : toU64 (lbGet lb ((readyList eps us).map EP.id) + 1) = lbGet lb ((readyList eps us).map EP.id) + 1 := by
+      unfold toU64; exact Nat.mod_eq_of_lt (by omega)
+    have hpop := pop_multi eps lb us (by omega)
+    rw [hc] at hpop
+    simp only [popMany, hpop, List.length_cons]
+    rw [countPicked_cons, indexResult_hit _ e _ hnd hmem (by omega), hlen']
+    have hih := ih (lbSet lb ((readyList eps us).map EP.id) (lbGet lb ((readyList eps us).map EP.id) + 1))
+      (fun us' h' => hkeys us' (by simp [h']))
+      (by
+        intro κ' h'
+        have := hwrap κ' h'
+        simp only [List.length_cons] at this
+        rw [lbGet_lbSet]
+        split
+        · rename_i heq; subst heq; omega
+        · omega)
+    have hset := potential_set K hK k e lb _ (lbGet lb ((readyList eps us).map EP.id) + 1) hκ
+    have hp : ((readyList eps us).map EP.id).idxOf e < k := by rw [← hlen]; exact List.idxOf_lt_length_iff.2 hmem
+    have hstep := dist_step hk hp (lbGet lb ((readyList eps us).map EP.id))
+    simp only [decide_eq_true_eq]
+    rw [Nat.mul_add]
+    split at hstep <;> rename_i hres <;> simp only [hres, if_true, if_false] <;> omega
+
+
+/-! ## C14: concurrent pickers -/
+
+/-- the result thread `t` has produced or is bound to produce -/
+def final (eps : List EP) (uss : List (List Name)) (pcs : List PC) (t : Nat) : PopOut :=
+  match pcs[t]? with
+  | some (.done r) => r
+  | some (.added c) => indexResult (readyList eps (usAt uss t)) c
+  | _ => .panic
+
+theorem popMany_append (eps : List EP) (lb : List (Key × Nat)) (xs : List (List Name)) (us : List Name) :
+    popMany eps lb (xs ++ [us]) =
+      ((popMany eps lb xs).1 ++ [(pop eps (popMany eps lb xs).2 us).1], (pop eps (popMany eps lb xs).2 us).2) := by
+  induction xs generalizing lb with
+  | nil => simp [popMany]
+  | cons x xs ih => simp [popMany, ih]
+
+structure CInv (eps : List EP) (uss : List (List Name)) (lb0 : List (Key × Nat)) (sys : Sys) : Prop where
+  len : sys.pcs.length = uss.length
+  view : sys.log.map (final eps uss sys.pcs) = (popMany eps lb0 (sys.log.map (usAt uss))).1
+  lb : sys.lb = (popMany eps lb0 (sys.log.map (usAt uss))).2
+  logged : ∀ t, t ∈ sys.log → t < uss.length ∧ sys.pcs[t]? ≠ some .start
+  unlogged : ∀ t, t < uss.length → t ∉ sys.log → sys.pcs[t]? = some .start
+  nodup : sys.log.Nodup
+
+theorem cinv_init (eps : List EP) (uss : List (List Name)) (lb0 : List (Key × Nat)) :
+    CInv eps uss lb0 (cinit lb0 uss.length) := by
+  refine ⟨by simp [cinit], by simp [cinit, popMany], by simp [cinit, popMany], ?_, ?_, by simp [cinit]⟩
+  · intro t ht; simp [cinit] at ht
+  · intro t ht _; simp [cinit, ht]
+
+theorem final_set_other (eps : List EP) (uss : List (List Name)) (pcs : List PC) (t t' : Nat) (pc : PC) (h : t' ≠ t) :
+    final eps uss (pcs.set t pc) t' = final eps uss pcs t' := by
+  unfold final
+  rw [List.getElem?_set_ne (Ne.symm h)]
+
+theorem cinv_step {eps : List EP} {uss : List (List Name)} {lb0 : List (Key × Nat)} {sys : Sys}
+    (h : CInv eps uss lb0 sys) (t : Nat) : CInv eps uss lb0 (cstep eps uss sys t) := by
+  unfold cstep
+  cases hu : uss[t]? with
+  | none => simpa using h
+  | some us =>
+    have htlt : t < uss.length := by
+      rcases List.getElem?_eq_some_iff.1 hu with ⟨h', _⟩; exact h'
+    have husAt : usAt uss t = us := by simp [usAt, hu]
+    cases hp : sys.pcs[t]? with
+    | none => simpa using h
+    | some pc =>
+      have htp : t < sys.pcs.length := by
+        rcases List.getElem?_eq_some_iff.1 hp with ⟨h', _⟩; exact h'
+      cases pc with
+      | done r => simpa using h
+      | added c =>
+        simp only
+        have hview : ∀ t', final eps uss (sys.pcs.set t (.done (indexResult (readyList eps us) c))) t' = final eps uss sys.pcs t' := by
+          intro t'
+          by_cases ht' : t' = t
+          · subst ht'
+            unfold final
+            rw [List.getElem?_set_self htp, hp, husAt]
+          · exact final_set_other _ _ _ _ _ _ ht'
+        refine ⟨by simpa using h.len, ?_, h.lb, ?_, ?_, h.nodup⟩
+        · show List.map (final eps uss (sys.pcs.set t (.done (indexResult (readyList eps us) c)))) sys.log = _
+          rw [funext hview]; exact h.view
+        · intro t' ht'
+          refine ⟨(h.logged t' ht').1, ?_⟩
+          by_cases hh : t' = t
+          · subst hh; rw [List.getElem?_set_self htp]; simp
+          · rw [List.getElem?_set_ne (Ne.symm hh)]; exact (h.logged t' ht').2
+        · intro t' h1 h2
+          have := h.unlogged t' h1 h2
+          by_cases hh : t' = t
+          · subst hh; rw [hp] at this; cases this
+          · rw [List.getElem?_set_ne (Ne.symm hh)]; exact this
+      | start =>
+        simp only
+        have hnot : t ∉ sys.log := fun hm => (h.logged t hm).2 hp
+        -- the old log entries are other threads: their `final` is unchanged by setting thread t
+        have hold : ∀ pc, sys.log.map (final eps uss (sys.pcs.set t pc)) = sys.log.map (final eps uss sys.pcs) := by
+          intro pc
+          apply List.map_congr_left
+          intro t' ht'
+          exact final_set_other _ _ _ _ _ _ (fun x => hnot (x ▸ ht'))
+        have hlogged : ∀ pc, pc ≠ PC.start → ∀ t', t' ∈ sys.log ++ [t] → t' < uss.length ∧ (sys.pcs.set t pc)[t']? ≠ some .start := by
+          intro pc hpc t' ht'
+          rcases List.mem_append.1 ht' with h' | h'
+          · refine ⟨(h.logged t' h').1, ?_⟩
+            have : t' ≠ t := fun x => hnot (x ▸ h')
+            rw [List.getElem?_set_ne (Ne.symm this)]; exact (h.logged t' h').2
+          · have : t' = t := by simpa using h'
+            subst this
+            refine ⟨htlt, ?_⟩
+            rw [List.getElem?_set_self htp]
+            intro x; injection x with x; exact hpc x
+        have hunlogged : ∀ pc, ∀ t', t' < uss.length → t' ∉ sys.log ++ [t] → (sys.pcs.set t pc)[t']? = some .start := by
+          intro pc t' h1 h2
+          have hne : t' ≠ t := fun x => h2 (by simp [x])
+          rw [List.getElem?_set_ne (Ne.symm hne)]
+          exact h.unlogged t' h1 (fun x => h2 (by simp [x]))
+        have hnd : (sys.log ++ [t]).Nodup := by
+          rw [List.nodup_append]
+          refine ⟨h.nodup, by simp, ?_⟩
+          intro a ha b hb
+          have : b = t := by simpa using hb
+          subst this
+          exact fun x => hnot (x ▸ ha)
+        by_cases hm : 2 ≤ (readyList eps us).length
+        · simp only [hm, if_true]
+          have hpop := pop_multi eps sys.lb us hm
+          refine ⟨by simpa using h.len, ?_, ?_, hlogged _ (by simp), hunlogged _, hnd⟩
+          · simp only [List.map_append, List.map_cons, List.map_nil, hold, husAt]
+            rw [popMany_append, ← h.lb, ← h.view, hpop]
+            simp only
+            congr 1
+            unfold final
+            rw [List.getElem?_set_self htp, husAt]
+          · simp only [List.map_append, List.map_cons, List.map_nil, husAt]
+            rw [popMany_append, ← h.lb, hpop]
+        · simp only [hm, if_false]
+          have hpop2 : (pop eps sys.lb us).2 = sys.lb := by
+            have hl : (readyList eps us).length = 0 ∨ (readyList eps us).length = 1 := by omega
+            rcases hl with hl | hl
+            · rw [pop_none eps sys.lb us (List.length_eq_zero_iff.1 hl)]
+            · obtain ⟨e, he⟩ := List.length_eq_one_iff.1 hl
+              rw [pop_single eps sys.lb us e he]
+          refine ⟨by simpa using h.len, ?_, ?_, hlogged _ (by simp), hunlogged _, hnd⟩
+          · simp only [List.map_append, List.map_cons, List.map_nil, hold, husAt]
+            rw [popMany_append, ← h.lb, ← h.view]
+            simp only
+            congr 1
+            unfold final
+            rw [List.getElem?_set_self htp]
+          · simp only [List.map_append, List.map_cons, List.map_nil, husAt]
+            rw [popMany_append, ← h.lb, hpop2]
+
+theorem cinv_run {eps : List EP} {uss : List (List Name)} {lb0 : List (Key × Nat)} {sys : Sys}
+    (h : CInv eps uss lb0 sys) (sched : List Nat) : CInv eps uss lb0 (crun eps uss sys sched) := by
+  induction sched generalizing sys with
+  | nil => simpa [crun] using h
+  | cons t rest ih => simpa [crun] using ih (cinv_step h t)
+
 end KG.Lemmas.Endpoints
